@@ -176,7 +176,7 @@ func runFtpDataConn(svc services.Servicer, sp Spec, idx int) (ob ConnObs, gone b
 		select {
 		case r = <-done:
 			returned = true
-		case <-time.After(700*time.Millisecond + 3*deadline):
+		case <-time.After(wait):
 		}
 	case r = <-done:
 		returned = true
